@@ -45,7 +45,7 @@ PROPS = {
     "C17": dict(fams=[("malformed", 3000, "fast"), ("text", 600, "fast"), ("print", 800, "fast"), ("printall", 1, "fast"), ("escapes", 1, "fast"), ("chars", 1, "fast")], mult=10),
     "C18": dict(fams=[("deser", 3000, "fast")], mult=20),
     "C19": dict(fams=[("prefix", 250, "fast"), ("malformed", 2000, "fast"), ("escapes", 1, "fast"), ("prefix", 80, "nofast"), ("serde", 200, "fast"), ("faults", 60, "fast")], mult=10),
-    "C20": dict(fams=[("prims", 2500, "fast"), ("values", 800, "fast")], mult=20),
+    "C20": dict(fams=[("prims", 2500, "fast"), ("values", 800, "fast"), ("num", 800, "fast")], mult=20),
 }
 
 EXTRA_MODULES = {
@@ -335,7 +335,7 @@ def run_depth(prop, tier, workdir):
     sizes = [1000, 100000, 1000000] if tier == "quick" else [1000, 10000, 100000, 1000000, 3000000]
     ops = ["build", "drop", "parse", "parse_datum", "print", "display", "to_vec", "into_vec", "iter", "into_iter",
            "index", "is_list", "clone", "eq", "datum_clone", "datum_eq", "datum_drop", "datum_iter", "to_value", "from_value",
-           "datum_fail", "datum_fail_bracket", "datum_fail_token", "value_fail", "datum_iter_fail", "datum_cdr_owned", "alist", "drop_unwinding"]
+           "datum_fail", "datum_fail_bracket", "datum_fail_token", "value_fail", "datum_iter_fail", "datum_cdr_owned", "alist", "drop_unwinding", "clone_from"]
     if prop == "C03":
         ops = []
     jobs = []
